@@ -151,8 +151,13 @@ def dump_to_cache(crates):
         sp = os.path.join(d, c + '.shims.json'); json.dump(shims, open(sp, 'w'))
         out[c] = {'mir': p, 'shims': sp, 'dump_s': round(dt, 2), 'enums': scan_enums(c)}
     # old run directories are removed (keep the 4 most recent)
-    runs = sorted((os.path.getmtime(os.path.join(BUILD, 'run', x)), x) for x in os.listdir(os.path.join(BUILD, 'run')))
-    for _, x in runs[:-4]: shutil.rmtree(os.path.join(BUILD, 'run', x), ignore_errors=True)
+    # run directories older than two hours are removed
+    now = time.time()
+    for x in os.listdir(os.path.join(BUILD, 'run')):
+        px = os.path.join(BUILD, 'run', x)
+        try:
+            if now - os.path.getmtime(px) > 7200: shutil.rmtree(px, ignore_errors=True)
+        except OSError: pass
     return out
 
 
